@@ -8,6 +8,8 @@
 // point, after every completed operation, after all threads finished): a difference means the
 // returned list/name was rewritten under its holder (C16.torn). (b) Auxiliary: the same bodies free-running under the Go
 // race detector (sampling; decides only the "no data race" clause).
+// Family E walks one entry (prefix /e) through its life cycle from every starting shape; the final
+// state asks the face and dispatch tables under every id and repeats the threads' own lookups.
 // Family D of the scenarios makes face teardown a first-class operation: registered faces that own
 // routes, the real face.Table.Remove / faces/destroy (also two teardowns of one face) against the
 // real face-guarded management handlers (rib/register, fib/add-nexthop, ...), lookups and probes.
@@ -839,7 +841,7 @@ func main() {
 		"preemption_bound_target": bound, "distinct_histories": outcomes, "determinism_double_runs": dbl,
 		"exhaustive": complete, "samples": samples, "per_scenario": per,
 		"lookup_results_kept_by_reference_and_reread": kept, "scenarios_per_family": famScn, "schedules_per_family": famExec,
-		"rule":        "for each of the 2- and 3-thread scenarios (all pairs over 16 thread programs colliding on /a, /a/b and faces 1,2, plus selected triples; family B: the same from a state with leftovers of earlier removals; family C: strategy choices re-pointed/unset/re-created on prefixes that already have one, incl. the default on /, against strategy and next-hop lookups; family D: faces that really are in the face table and the dispatch table and own routes, torn down through the real face.Table.Remove and the real faces/destroy handler - also twice, by two threads - against the real rib/register, rib/unregister, fib/add-nexthop, fib/remove-nexthop handlers of the management thread (explicit FaceId: guarded by the face's existence; no FaceId: the arrival face), lookups and face-table / dispatch-table probes, incl. a lookup and a probe issued by the thread whose teardown has just returned) x {tree, hashtable FIB}: every schedule with at most the stated number of preemptions, scheduling points at every sync operation of fw/table and between obtaining and consuming a lookup result; each complete execution checked for crash, deadlock, linearizability against the same implementation run sequentially (brute force over all program-order- and real-time-consistent orders), torn results and final-state equivalence; every value a lookup returned is kept by reference with a deep snapshot taken at the return and read again after the lookup thread's next scheduling point, after every completed operation and after all threads finished (a difference = the returned list/name was rewritten under its holder: C16.torn)",
+		"rule":        "for each of the 2- and 3-thread scenarios (all pairs over 16 thread programs colliding on /a, /a/b and faces 1,2, plus selected triples; family B: the same from a state with leftovers of earlier removals; family C: strategy choices re-pointed/unset/re-created on prefixes that already have one, incl. the default on /, against strategy and next-hop lookups; family D: faces that really are in the face table and the dispatch table and own routes, torn down through the real face.Table.Remove and the real faces/destroy handler - also twice, by two threads - against the real rib/register, rib/unregister, fib/add-nexthop, fib/remove-nexthop handlers of the management thread (explicit FaceId: guarded by the face's existence; no FaceId: the arrival face), lookups and face-table / dispatch-table probes, incl. a lookup and a probe issued by the thread whose teardown has just returned; forwarding threads whose dispatch-table lookups alternate between the two faces and the real strategy-choice/set handler on the prefix whose only route belongs to the face torn down; family E: the life cycle of ONE entry - every operation addresses the leaf prefix /e, started in every shape {no entry, 1 next hop, (thorough: 2 next hops)} x {no strategy choice, a choice}: set / re-point / unset the choice, route add/remove, next-hop insert/remove, face teardown, remove-and-re-create, all pairs with a strategy update or the reader on one side (thorough: all pairs) plus triples) x {tree, hashtable FIB}: every schedule with at most the stated number of preemptions, scheduling points at every sync operation of fw/table and between obtaining and consuming a lookup result; each complete execution checked for crash, deadlock, linearizability against the same implementation run sequentially (brute force over all program-order- and real-time-consistent orders), torn results and final-state equivalence (final state = the face table and the dispatch table asked under EVERY face id of the universe, unlisted ids first and before anything else; every lookup the threads issued repeated once more, per thread last lookup first; next hops and strategy in effect over 13 names; FIB, RIB and strategy-choice listings; listed faces; readvertised commands); every value a lookup returned is kept by reference with a deep snapshot taken at the return and read again after the lookup thread's next scheduling point, after every completed operation and after all threads finished (a difference = the returned list/name was rewritten under its holder: C16.torn)",
 		"explanation": "states/transitions = scheduling points visited; every schedule is an execution of the real code under the controlled scheduler",
 	}
 	if os.Getenv("C16_ONLY_FAMILY") == "" && os.Getenv("C16_ONLY_SCN") == "" {
@@ -849,6 +851,7 @@ func main() {
 		"scheduling points exist only at sync operations of fw/table (and explicit yields in the bodies); unsynchronised accesses are covered by the separate free-running -race pass (sampled, auxiliary)",
 		"Go lock fairness/writer preference and memory-model effects beyond sequential consistency are not modelled",
 		"scenario universe: names /, /a, /a/b, /c (+lookups below), faces 1..4, strategies multicast and best-route, initial routes /a->f1(CI) /a->f2 /a/b->f2(CI); family C additionally starts with strategy choices /a=multicast /a/b=best-route /c=multicast",
+		"family E: prefix /e (leaf below the root, sibling /a keeps a route), faces 1..3; between executions the face table and the dispatch table are emptied through the real Remove/RemoveFace for every id an execution can have used (nothing the implementation keeps per face next to the two maps is inherited)",
 		"family D: at most one thread of a scenario issues management commands (the daemon has one management thread) and that thread issues no lookups; the status a face-guarded command (rib/register, fib/add-nexthop with FaceId; faces/destroy) reports while a teardown of that face overlaps it is not judged (the property is silent): a command that was refused (410) - for faces/destroy: that overlapped another thread's teardown of the same face - left the tables untouched and is not required to precede the operations other threads start after it; its own result and everything else stay under the linearizability and final-state clauses",
 	})
 }
